@@ -124,6 +124,33 @@ func (m *c12Mapper) CallType(name string, args []influxql.DataType) (influxql.Da
 	return influxql.Unknown, nil
 }
 
+// c12Half answers for one function only and knows no field; c12Stacked takes fields and tags from the schema mapper and
+// all types from a MultiTypeMapper
+type c12Half struct{}
+
+func (c12Half) MapType(*influxql.Measurement, string) influxql.DataType { return influxql.Unknown }
+func (c12Half) CallType(name string, args []influxql.DataType) (influxql.DataType, error) {
+	if name == "mean" {
+		return influxql.Float, nil
+	}
+	return influxql.Unknown, nil
+}
+
+type c12Stacked struct {
+	m  *c12Mapper
+	tm influxql.TypeMapper
+}
+
+func (s c12Stacked) FieldDimensions(ms *influxql.Measurement) (map[string]influxql.DataType, map[string]struct{}, error) {
+	return s.m.FieldDimensions(ms)
+}
+func (s c12Stacked) MapType(ms *influxql.Measurement, field string) influxql.DataType {
+	return s.tm.MapType(ms, field)
+}
+func (s c12Stacked) CallType(name string, args []influxql.DataType) (influxql.DataType, error) {
+	return s.tm.(influxql.CallTypeMapper).CallType(name, args)
+}
+
 func c12Run(c M) M {
 	text := caseText(c)
 	o := M{"text": text}
@@ -180,7 +207,13 @@ func c12Run(c M) M {
 		var out *influxql.SelectStatement
 		var rerr error
 		e := M{}
-		if p := guard(func() { out, rerr = sel.RewriteFields(m) }); p != "" {
+		var fm influxql.FieldMapper = m
+		if k%2 == 1 {
+			// the same schema behind the exported combinator: a first type mapper that knows no field and only one
+			// function, then the schema's own (how a server stacks a function mapper on a shard mapper)
+			fm = c12Stacked{m, influxql.MultiTypeMapper(c12Half{}, m)}
+		}
+		if p := guard(func() { out, rerr = sel.RewriteFields(fm) }); p != "" {
 			e["panic"] = p
 		} else if rerr != nil {
 			e["err"] = errStr(rerr)
